@@ -517,6 +517,7 @@ fn run_c09(t: &mut Tape, _tier: Tier) -> RunOut {
         mix.defect_kinds = vec!["bad-path-escape", "path-climb"];
         mix.max_defects = 1;
         mix.defect_p10 = 2;
+        mix.node.requirements = false;
         mix.mask = NoiseMask {
             path: true,
             query: false,
@@ -671,6 +672,7 @@ fn run_c10(t: &mut Tape, tier: Tier) -> RunOut {
         mix.defect_kinds = vec!["bad-query-escape"];
         mix.max_defects = 1;
         mix.defect_p10 = 1;
+        mix.node.requirements = false;
         mix.mask = NoiseMask {
             path: false,
             query: true,
